@@ -14,6 +14,7 @@ func init() {
 	kinds["parse"] = kParse
 	kinds["intlit"] = kIntLit
 	kinds["key"] = kKey
+	kinds["json"] = kParse
 }
 
 // newfrom: {"from": godata, "opts": [...]} -> view + structural observations
